@@ -4,14 +4,18 @@ Design level: IDMachine.tla invariant Complete (reference ID refuses <=> Tian/Hu
 <=> a hedge exists, by brute force) on every 3-node ADMG.  Conformance: the outcome class of the real
 identify_outcomes / identify on every TLC-generated query is validated by TLC (TV.tla: expr iff TianOK,
 'unident' iff not, anything else rejected) and the caller's graph/query are compared before and after.
+The query objects themselves are a machine (QueryMachine.tla): TLC-generated transformer sequences are replayed through
+Query / Identification and every live object is compared with the spec's after every step.
 """
 
 from __future__ import annotations
 
 import random
 
+import examples as ex
 import idcommon as ic
 import linetrace as lt
+import querymachine as qm
 from common import MachineryError, Outcome, seed, workdir
 
 PID = "C02"
@@ -23,6 +27,7 @@ def warm():
     ic.mc(wd, "A3", "id")
     ic.gen(wd, "A3", "id")
     ic.gen(wd, "A4o", "id")
+    qm.warm(wd)
 
 
 def run(tier: str) -> int:
@@ -41,6 +46,9 @@ def run(tier: str) -> int:
             it["qs"] = qrng.sample(it["qs"], 120)
         items += r6i
         gens.append(r6)
+    exg = ex.id_items(wd, "id")   # the repository's example catalogue, every query with |X| + |Y| <= 3
+    items += ic.with_gids([{k: it[k] for k in ("g", "qs")} for it in exg["items"]], "EX-")
+    gens.append(exg)
     groups = ic.run_y0(wd, items, 3, False, "c02")
     vs, st, by_id = ic.judge(wd, groups, seeds=(1,))
     idx = ic.index(items)
@@ -60,6 +68,8 @@ def run(tier: str) -> int:
     traces = lt.validate(wd, lt_items)
     if traces["accepted"] != traces["traces"]:
         print(f"DIAGNOSTIC property={PID} line traces rejected by IDLines.tla: {traces['traces'] - traces['accepted']} of {traces['traces']}, e.g. {traces['rejected_sample']}")
+    # the query objects as a machine (QueryMachine.tla): every transformer returns a new object, live objects persist
+    qstats = qm.run(wd, out, tier)
     ident_n = sum(1 for v in vs.values() if v["clause"] == "verdict-only")
     refused = sum(1 for v in vs.values() if v["clause"] == "refused")
     nontriv = {rid.rsplit(":", 1)[0] for rid, v in vs.items() if by_id[rid][0]["b"]}
@@ -81,7 +91,10 @@ def run(tier: str) -> int:
         "exhaustive": True,
         "design_mc": mcs,
         "line_traces": traces,
+        "query_machine": qstats,
     }
+    cov["states"] += qstats["distinct"]
+    cov["transitions"] += qstats["generated"]
     cov["states"] += traces["distinct"]
     cov["transitions"] += traces["generated"]
     return out.finish("model_checking", cov, [
